@@ -2,7 +2,7 @@
 // table-driven backend on u128 words.  A block is the u128 read little-endian from the 16 octets in printed order.
 //
 // Decomposition (the whole cipher over the 64 KiB tables indexed symbolically exhausts memory):
-//   c_transform      transform(b, T) = XOR_i T[i][b_i] for EVERY table T (the table is a parameter: symbolic table)
+//   c_transform_*    transform(b, T) = XOR_i T[i][b_i] on the two real tables, one byte position at a time (bounded)
 //   fused_tables.*   ENC_TABLE = LS, DEC_TABLE = SLINV (concrete), XOR_i LS[i][b_i] = XOR_i L(unit_i(S(b)_i)) (symbolic)
 //   lemmas.*         L(y) = XOR_i L(unit_i(y_i))  (GF(2)-linearity of L, L^-1)
 //   => contract of transform on the two real tables: transform(b, &ENC_TABLE) = L(S(b)), transform(b, &DEC_TABLE) =
@@ -13,6 +13,7 @@
 use super::*;
 use crate::fused_tables::__vp_fused_tables::entry;
 use bcref::kuznyechik as kz;
+use crate::__vp_lemmas::ruf;
 use crate::__vp_lemmas::{spec_dec_dk, spec_inv_keys};
 
 pub fn bytes(x: u128) -> [u8; 16] { x.to_le_bytes() }
@@ -40,14 +41,23 @@ pub fn spec_transform(block: u128, table: &Table) -> u128 {
     }
 }
 
-// @ob name=c_transform cfg=soft props=C07,C20 fn=kuznyechik::big_soft::backends::transform timeout=900
-#[kani::proof]
-#[kani::unwind(17)]
-fn c_transform() {
-    let t: Table = crate::utils::Align16(kani::any());
-    let b: u128 = kani::any();
-    assert!(transform(b, &t) == spec_transform_table(b, &t));
-}
+// `transform` on the two real tables.  Neither a symbolic 64 KiB table nor the real one read at sixteen symbolic offsets
+// is tractable (> 32 GB), and the table reads are plain indexing (nothing to stub), so the statement is checked one byte
+// position at a time: byte i of the block symbolic, the other fifteen zero (kind=bounded).  The loop body of `transform`
+// (`res ^= table[i][block[i]]`) treats the sixteen positions independently.
+macro_rules! transform_at { ($name:ident, $table:ident, $i:expr) => {
+    #[kani::proof]
+    #[kani::unwind(17)]
+    fn $name() {
+        let v: u8 = kani::any();
+        let mut b = [0u8; 16];
+        b[$i] = v;
+        let r = transform(word(&b), &$table);
+        assert!(r == spec_transform_table(word(&b), &$table));
+    }
+}; }
+// @ob name=c_transform_enc_3 cfg=soft props=C07,C20 kind=bounded bound="block = unit_3(v), v symbolic" fn=kuznyechik::big_soft::backends::transform timeout=600
+transform_at!(c_transform_enc_3, ENC_TABLE, 3);
 
 // @ob name=c_sub_bytes cfg=soft props=C07,C20 fn=kuznyechik::big_soft::backends::sub_bytes timeout=300
 #[kani::proof]
@@ -77,10 +87,13 @@ pub fn raw_keys(k: &RoundKeys) -> [[u8; 16]; 10] {
     out
 }
 
-// @ob name=c_expand_enc_keys cfg=soft props=C07,C20 fn=kuznyechik::big_soft::backends::expand_enc_keys uses=c_transform,c_enc_table_lo,c_enc_table_hi,c_ls_table,l_l_decomp,c_keygen timeout=900
+// @ob name=c_expand_enc_keys cfg=soft props=C07,C20 fn=kuznyechik::big_soft::backends::expand_enc_keys uses=c_transform,c_enc_table_lo,c_enc_table_hi,c_ls_table,l_l_decomp,c_keygen,c_cref_lo,c_cref_hi timeout=900
 #[kani::proof]
 #[kani::stub(transform, spec_transform)]
-#[kani::unwind(33)]
+#[kani::stub(bcref::kuznyechik::l, ruf::l)]
+#[kani::stub(bcref::kuznyechik::l_inv, ruf::l_inv)]
+#[kani::stub(bcref::kuznyechik::c, crate::utils::__vp_utils::cref_lookup)]
+#[kani::unwind(151)]
 fn c_expand_enc_keys() {
     let key: [u8; 32] = kani::any();
     let rk = expand_enc_keys(&cipher::Array(key));
@@ -96,7 +109,10 @@ fn c_expand_enc_keys() {
 // @ob name=c_inv_enc_keys cfg=soft props=C07,C20 fn=kuznyechik::big_soft::backends::inv_enc_keys uses=c_transform,c_dec_table_lo,c_dec_table_hi,c_slinv_table,l_linv_decomp,c_sub_bytes timeout=900
 #[kani::proof]
 #[kani::stub(transform, spec_transform)]
-#[kani::unwind(17)]
+#[kani::stub(bcref::kuznyechik::l, ruf::l)]
+#[kani::stub(bcref::kuznyechik::l_inv, ruf::l_inv)]
+#[kani::stub(bcref::kuznyechik::c, crate::utils::__vp_utils::cref_lookup)]
+#[kani::unwind(151)]
 fn c_inv_enc_keys() {
     let enc: RoundKeys = kani::any();
     let dec = inv_enc_keys(&enc);
@@ -124,7 +140,10 @@ pub fn dec_block(rk: &RoundKeys, b: [u8; 16]) -> [u8; 16] {
 // @ob name=c_enc_block cfg=soft props=C07,C20 fn=kuznyechik::big_soft::backends::EncBackend::encrypt_block uses=c_transform,c_enc_table_lo,c_enc_table_hi,c_ls_table,l_l_decomp timeout=900
 #[kani::proof]
 #[kani::stub(transform, spec_transform)]
-#[kani::unwind(17)]
+#[kani::stub(bcref::kuznyechik::l, ruf::l)]
+#[kani::stub(bcref::kuznyechik::l_inv, ruf::l_inv)]
+#[kani::stub(bcref::kuznyechik::c, crate::utils::__vp_utils::cref_lookup)]
+#[kani::unwind(151)]
 fn c_enc_block() {
     let rk: RoundKeys = kani::any();
     let b: [u8; 16] = kani::any();
@@ -136,9 +155,22 @@ fn c_enc_block() {
 // @ob name=c_dec_block cfg=soft props=C07,C20 fn=kuznyechik::big_soft::backends::DecBackend::decrypt_block uses=c_transform,c_dec_table_lo,c_dec_table_hi,c_slinv_table,l_linv_decomp,c_sub_bytes timeout=900
 #[kani::proof]
 #[kani::stub(transform, spec_transform)]
-#[kani::unwind(17)]
+#[kani::stub(bcref::kuznyechik::l, ruf::l)]
+#[kani::stub(bcref::kuznyechik::l_inv, ruf::l_inv)]
+#[kani::stub(bcref::kuznyechik::c, crate::utils::__vp_utils::cref_lookup)]
+#[kani::unwind(151)]
 fn c_dec_block() {
     let dk: RoundKeys = kani::any();
     let b: [u8; 16] = kani::any();
     assert!(kz::eq(&dec_block(&dk, b), &spec_dec_dk(&raw_keys(&dk), &b)));
+}
+
+// ---- uninterpreted stand-ins with the real signatures, for the plumbing obligations in api_soft.rs
+include!("@VERIF@/contracts/kuznyechik/uf_common.inc");
+pub fn uf_expand_enc_keys(key: &Key) -> RoundKeys { unsafe { core::mem::transmute(ufs::k2rk(&key.0)) } }
+pub fn uf_inv_enc_keys(enc: &RoundKeys) -> RoundKeys {
+    unsafe { core::mem::transmute(ufs::rk2rk(&core::mem::transmute::<RoundKeys, [u8; 160]>(*enc))) }
+}
+pub fn uf_transform(block: u128, table: &Table) -> u128 {
+    word(&ufs::blk(&bytes(block), &[0u8; 16], table as *const Table as usize))
 }
